@@ -682,4 +682,109 @@ theorem format_printL (L : Layout) (o : Options) (j : Journal) (hj : WF j = true
   rw [oldText_segsL, newText_segsL] at hseg
   exact hseg
 
+/-! ### the tree of a core journal fits its text (`TreeFits` of HL/Props/C05.lean) -/
+
+theorem postings_linenos (L : Layout) (ps : List Posting) : ∀ ln o,
+    (expectedPostingsL L ps ln o).map (·.range.start.line) = List.range' ln ps.length := by
+  induction ps with
+  | nil => intro _ _; rfl
+  | cons p ps ih =>
+    intro ln o
+    simp only [expectedPostingsL, List.map_cons, List.length_cons, List.range'_succ, ih]
+    rfl
+
+theorem linesL_length_pos (L : Layout) (j : Journal) : 0 < (linesL L j).length := by
+  cases j with
+  | nil => simp [linesL]
+  | cons t ts => cases ts <;> simp [linesL, Tx.linesL]
+
+/-- the posting lines of the tree: strictly increasing, behind line `ln`, inside the text -/
+theorem txs_linenos (L : Layout) (j : Journal) : ∀ ln o,
+    (((expectedTxsL L j ln o).flatMap (·.postings)).map (·.range.start.line)).Pairwise (· < ·) ∧
+    ∀ x ∈ ((expectedTxsL L j ln o).flatMap (·.postings)).map (·.range.start.line),
+      ln < x ∧ x + 1 < ln + (linesL L j).length := by
+  induction j with
+  | nil => intro _ _; simp [expectedTxsL]
+  | cons t ts ih =>
+    intro ln o
+    have ht : (t.expectedL L ln o).postings.map (·.range.start.line) = List.range' (ln + 1) t.postings.length :=
+      postings_linenos L t.postings _ _
+    cases ts with
+    | nil =>
+      simp only [expectedTxsL, List.flatMap_cons, List.flatMap_nil, List.append_nil, ht]
+      refine ⟨List.pairwise_lt_range' .., ?_⟩
+      intro x hx
+      have := List.mem_range'_1.mp hx
+      simp only [linesL, Tx.linesL, List.length_append, List.length_cons, List.length_map, List.length_nil]
+      omega
+    | cons t2 ts =>
+      obtain ⟨ih1, ih2⟩ := ih (ln + t.postings.length + 2) (o + (t.printL L).length + 1)
+      have hpos := linesL_length_pos L (t2 :: ts)
+      simp only [expectedTxsL, List.flatMap_cons, List.map_append, ht] at ih1 ih2 ⊢
+      have hlen : (linesL L (t :: t2 :: ts)).length = t.postings.length + 2 + (linesL L (t2 :: ts)).length := by
+        simp only [linesL, Tx.linesL, List.length_append, List.length_cons, List.length_map]; omega
+      constructor
+      · rw [List.pairwise_append]
+        refine ⟨List.pairwise_lt_range' .., ih1, ?_⟩
+        intro a ha b hb
+        have := List.mem_range'_1.mp ha
+        have := (ih2 b hb).1
+        omega
+      · intro x hx
+        rw [hlen]
+        rcases List.mem_append.mp hx with h | h
+        · have := List.mem_range'_1.mp h
+          omega
+        · have := ih2 x h
+          omega
+
+/-- **The tree of a printed core journal fits the text**: every posting starts on a line of the
+    text, no two on the same line. -/
+theorem treeFits_printL (L : Layout) (j : Journal) (hj : WF j = true)
+    (hsize : (printL L j).length < 4294967296) : HL.Props.C05.TreeFits (printL L j) (expectedL L j) := by
+  obtain ⟨h1, h2⟩ := txs_linenos L j 1 0
+  refine ⟨hsize, ?_, ?_⟩
+  · intro p hp
+    have := h2 p.range.start.line (List.mem_map.mpr ⟨p, hp, rfl⟩)
+    rw [splitLines_printL L j hj]
+    omega
+  · exact h1.imp (fun h => Nat.ne_of_lt h)
+
+/-! ### line by line: everything but the posting lines is unchanged -/
+
+/-- two lines are equal, or they are the same posting under the two layouts -/
+def LineRel (L L' : Layout) (a b : Bytes) : Prop := a = b ∨ ∃ p : Posting, a = p.printL L ∧ b = p.printL L'
+
+/-- two line lists of equal length, related line by line -/
+inductive LinesRel (L L' : Layout) : List Bytes → List Bytes → Prop
+  | nil : LinesRel L L' [] []
+  | cons {a b : Bytes} {as bs : List Bytes} : LineRel L L' a b → LinesRel L L' as bs → LinesRel L L' (a :: as) (b :: bs)
+
+theorem LinesRel.length {L L' : Layout} {as bs : List Bytes} (h : LinesRel L L' as bs) : as.length = bs.length := by
+  induction h with
+  | nil => rfl
+  | cons _ _ ih => simp [ih]
+
+theorem LinesRel.append {L L' : Layout} {a1 a2 b1 b2 : List Bytes}
+    (h1 : LinesRel L L' a1 b1) (h2 : LinesRel L L' a2 b2) : LinesRel L L' (a1 ++ a2) (b1 ++ b2) := by
+  induction h1 with
+  | nil => exact h2
+  | cons h _ ih => exact LinesRel.cons h ih
+
+theorem tx_lines_rel (L L' : Layout) (t : Tx) : LinesRel L L' (t.linesL L) (t.linesL L') := by
+  refine LinesRel.cons (Or.inl rfl) ?_
+  induction t.postings with
+  | nil => exact LinesRel.nil
+  | cons p ps ih => exact LinesRel.cons (Or.inr ⟨p, rfl, rfl⟩) ih
+
+/-- **The lines of one journal under two layouts**: as many lines, pairwise equal except that a
+    posting line corresponds to the line of the same posting. -/
+theorem lines_rel (L L' : Layout) (j : Journal) : LinesRel L L' (linesL L j) (linesL L' j) := by
+  induction j with
+  | nil => exact LinesRel.cons (Or.inl rfl) LinesRel.nil
+  | cons t ts ih =>
+    cases ts with
+    | nil => exact (tx_lines_rel L L' t).append (LinesRel.cons (Or.inl rfl) LinesRel.nil)
+    | cons t2 ts => exact (tx_lines_rel L L' t).append (LinesRel.cons (Or.inl rfl) ih)
+
 end HL.GCore
